@@ -2,6 +2,7 @@
 import collections
 import json
 import os
+import re
 import shutil
 import time
 
@@ -40,9 +41,35 @@ def run(tier, seed):
     for c in cfgs:
         files, entry, search, cwd = gen_loader.materialise(c)
         jobs.append({"id": c["id"], "files": files, "entry": entry, "search": search, "cwd": cwd, "stage": "front", "no_stdlib": True})
+    # the same trees served by a loader object that has already answered other requests: every file of the tree as an entry
+    # first, one of them while a file of the tree was still missing. The final request must be judged on the tree alone.
+    import random
+    rnd = random.Random(seed)
+    nfresh = len(jobs)
+    reuse_of = {}
+    for c in cfgs:
+        if c["id"] % 3:
+            continue
+        files, entry, search, cwd = gen_loader.materialise(c)
+        real = [f for f in files if f.endswith(".bloch")]
+        late = rnd.choice(real) if len(real) > 1 and c["id"] % 2 == 0 else None
+        jid = nfresh + len(reuse_of)
+        reuse_of[jid] = c["id"]
+        pre = real[:]
+        rnd.shuffle(pre)
+        jobs.append({"id": jid, "files": {k: v for k, v in files.items() if k != late}, "late_files": {late: files[late]} if late else {},
+                     "preload": [p_ for p_ in pre if p_ != late] + [entry] if late != entry else [p_ for p_ in pre if p_ != late],
+                     "entry": entry, "search": search, "cwd": cwd, "stage": "front", "no_stdlib": True})
     res = runner.run_jobs(jobs)
     bad = []
     hist = collections.Counter()
+    for jid, cid in reuse_of.items():
+        a, b = res[cid], res[jid]
+        norm = lambda r_: re.sub(r"\S*/job\d+/", "", r_.get("what", "")).strip()
+        if (a["status"], a.get("funcs"), norm(a)) != (b["status"], b.get("funcs"), norm(b)):
+            c = cfgs[cid]
+            bad.append((c, "a loader that had served earlier requests answers %s %s %s; a fresh loader on the same tree answers %s %s %s"
+                        % (b["status"], b.get("funcs", ""), b.get("what", "").strip()[:150], a["status"], a.get("funcs", ""), a.get("what", "").strip()[:150]), b))
     for c in cfgs:
         e, rr = exp[c["id"]], res[c["id"]]
         hist["ok" if e["ok"] else e["err"]] += 1
@@ -65,7 +92,7 @@ def run(tier, seed):
     for c, msg, rr in bad[:8]:
         files, entry, search, cwd = gen_loader.materialise(c)
         out.violation(msg, {"what": msg, "files": files, "entry": entry, "search": search, "cwd": cwd, "expected": exp[c["id"]], "got": rr}, "cfg%d" % c["id"])
-    cov = {"states": r.distinct, "transitions": r.generated, "traces_validated_against_impl": len(cfgs),
+    cov = {"states": r.distinct, "transitions": r.generated, "traces_validated_against_impl": len(cfgs) + len(reuse_of), "loader_reuse_runs": len(reuse_of),
            "expected_outcomes": dict(hist), "samples": [{"files": gen_loader.materialise(cfgs[20])[0], "expected": exp[20]}],
            "rule": "module trees over three roots (entry's project root, one search path, working directory; the working directory may coincide with "
                    "either): 1-3 modules, each with copies in any subset of the roots (shadowing candidates), package line right / wrong / absent, "
@@ -73,7 +100,8 @@ def run(tier, seed):
                    "and imports of the entry, 0-2 mains, plus structured diamonds, cycles of length 1-3, wildcard directories with one wrong package, "
                    "one file reached under two import names in both orders, bloch / bloch.u shadowing. Loader.tla gives the merged order or the error "
                    "family for each (TLC also checks LoadedOnce, DepsFirst, ExactlyOneMain, EntryLast); the tree is written to disk and the real "
-                   "ModuleLoader::load is called with that search path and working directory."}
+                   "ModuleLoader::load is called with that search path and working directory; every third tree is also requested from a loader object "
+                   "that has first answered requests for every other file of the tree (half of them while one file was still missing): same answer."}
     vlib.write_evidence(PID, tier, seed, "model_checking", cov,
                         ["configurations are sampled (seeded), plus a fixed structured family", "the implicit bloch.lang.Object root is not configured here"],
                         time.time() - t0, len(bad))
